@@ -78,6 +78,9 @@ def main(run):
         if h % 97 == 13:
             n = 400          # a few long histories (counters beyond 256)
             mode = ["random", "all-zero", "cancel-late", "zero-sum-pairs", "single-key"][(h // 97) % 5]
+        if h % 97 in (40, 41):
+            n = 620          # a key supplied a few times early on and then ABSENT for hundreds of updates (zero-filled all along)
+            mode = "long-absence"
         seen_keys = []
         changed = False
         hist = []
@@ -86,6 +89,10 @@ def main(run):
             if mode == "random":
                 ks = [k for k in keys if rnd.random() < 0.6]
                 upd = {k: rnd.randrange(-20, 21) for k in ks}
+            elif mode == "long-absence":
+                upd = {keys[0]: rnd.randrange(1, 21)}
+                if t in (2, 5) or t == 600:
+                    upd[keys[1]] = rnd.randrange(1, 21)
             elif mode == "spike":        # one huge transient value early on, ordinary magnitudes afterwards (sums must not remember the spike)
                 ks = [k for k in keys if rnd.random() < 0.7] or [keys[0]]
                 upd = {k: (rnd.choice([1, -1]) * 3 * 10 ** 9 if t == 1 and k == ks[0] else rnd.randrange(1, 21)) for k in ks}
@@ -131,6 +138,8 @@ def main(run):
             if set(upd) - set(seen_keys):
                 changed = changed or bool(seen_keys)
             seen_keys += [k for k in upd if k not in seen_keys]
+            if mode == "long-absence" and not (t in (3, 6) or 254 <= t <= 262 or 510 <= t <= 518 or t >= 598):
+                continue            # (long histories are read around the counter values 256 / 512 and at the end only: the reference re-sums the history)
             if h % 4 == 2 and t != n - 1 and rnd.random() > 0.2:
                 continue            # sparse read schedule: statistics are read at a few random times only (lazy bookkeeping must not depend on reads)
             got = mt.get()
